@@ -28,7 +28,7 @@ pub fn derive(input: &Input) -> TokenStream {
 
     let fields_names_hygienic = input.fields.iter()
         .enumerate()
-        .map(|(i, _)| Ident::new(&format!("___soa_derive_private_{}", i), Span::call_site()))
+        .map(|(i, _)| Ident::new(&format!("___soa_derive_private_{}", i), Span::mixed_site()))
         .collect::<Vec<_>>();
 
     let ref_fields_types = input.map_fields_nested_or(
